@@ -378,7 +378,7 @@ def run(ctx: Ctx) -> Outcome:
             finish_cases(cases, rng, ctx.quick)
         else:
             cases, rng = [rp['case']], random.Random(0)
-        results = cc.run_cases(cc.run_compile_case, cases, procs=10)
+        results = cc.run_compile_cases(cases, procs=10)
         # ---- part 3b: replay the design-level counterexamples of the model on the real code
         cex = []
         if th is not None:
@@ -397,7 +397,7 @@ def run(ctx: Ctx) -> Outcome:
             more = finish_cases(cex_cases(cex, rng, ctx.quick), rng, ctx.quick)
             for i, c in enumerate(more):
                 c['id'] = 'cex%d' % i
-            results += cc.run_cases(cc.run_compile_case, more, procs=10)
+            results += cc.run_compile_cases(more, procs=10)
             cases = cases + more
             classes = sorted({(k, l, cl, w, f) for k, l, cl, w, f, _ in cex})
             for k in sorted({(k, cl, f) for k, _, cl, _, f in classes}):
